@@ -37,7 +37,37 @@ func init() {
 		var ms0, ms1 runtime.MemStats
 		runtime.ReadMemStats(&ms0)
 		t0 := time.Now()
-		if kind == 'e' {
+		if kind == 'm' {
+			// several files: JSON {"main": name, "files": {name: text}} written to a
+			// scratch directory which is also the MROPATH, so @include resolves
+			var mf struct {
+				Main  string            `json:"main"`
+				Files map[string]string `json:"files"`
+			}
+			json.Unmarshal(text, &mf)
+			dir, _ := os.MkdirTemp("", "c08m")
+			defer os.RemoveAll(dir)
+			for name, t := range mf.Files {
+				fp := filepath.Join(dir, name)
+				os.MkdirAll(filepath.Dir(fp), 0755)
+				os.WriteFile(fp, []byte(t), 0644)
+			}
+			mainPath := filepath.Join(dir, mf.Main)
+			_, _, ast, err := syntax.ParseSourceBytes([]byte(mf.Files[mf.Main]), mainPath, []string{dir}, false)
+			if err != nil {
+				r.Err = strings.ReplaceAll(err.Error(), dir, "$D")
+			}
+			r.HasTree = ast != nil
+			if err == nil && ast != nil && ast.Call != nil {
+				ast.MakeCallGraph("", ast.Call)
+			}
+			var p syntax.Parser
+			if _, ferr := p.FormatSrcBytes([]byte(mf.Files[mf.Main]), mainPath, true, []string{dir}); ferr != nil {
+				r.FmtErr = ferr.Error()
+			} else {
+				r.FmtOK = true
+			}
+		} else if kind == 'e' {
 			var p syntax.Parser
 			v, err := p.ParseValExp(text)
 			if err != nil {
@@ -346,6 +376,80 @@ func init() {
 			gc.AllowNestedDynamic = i%8 >= 4
 			gc.AllowNestedMap = i%8 >= 2
 			add('s', pgen.Generate(c.Seed*7919+int64(i), gc).SingleFile(), "generated")
+		}
+		// include graphs: self include, cycles of length 2..4, diamonds, missing
+		// files, a directory as include, the same file twice, deep chains, and
+		// generated multi-file programs with one file mutated
+		addMulti := func(main string, files map[string]string, label string) {
+			b, _ := json.Marshal(map[string]interface{}{"main": main, "files": files})
+			add('m', string(b), label)
+		}
+		stageIn := func(n string) string {
+			return "stage " + n + "(\n    in  int x,\n    out int y,\n    src comp \"/bin/true\",\n)\n"
+		}
+		for n := 1; n <= 4; n++ {
+			files := map[string]string{}
+			for k := 0; k < n; k++ {
+				files[fmt.Sprintf("f%d.mro", k)] = fmt.Sprintf("@include \"f%d.mro\"\n\n", (k+1)%n) + stageIn(fmt.Sprintf("S%d", k))
+			}
+			for k := 0; k < n; k++ {
+				addMulti(fmt.Sprintf("f%d.mro", k), files, "include-graph")
+			}
+		}
+		addMulti("top.mro", map[string]string{
+			"top.mro": "@include \"l.mro\"\n@include \"r.mro\"\n\ncall S(\n    x = 1,\n)\n",
+			"l.mro":   "@include \"s.mro\"\n", "r.mro": "@include \"s.mro\"\n", "s.mro": stageIn("S")}, "include-graph")
+		addMulti("top.mro", map[string]string{"top.mro": "@include \"nope.mro\"\n" + stageIn("S")}, "include-graph")
+		addMulti("top.mro", map[string]string{"top.mro": "@include \"sub\"\n" + stageIn("S"), "sub/x.mro": stageIn("X")}, "include-graph")
+		addMulti("top.mro", map[string]string{"top.mro": "@include \"s.mro\"\n@include \"s.mro\"\n" + stageIn("T"), "s.mro": stageIn("S")}, "include-graph")
+		addMulti("sub/top.mro", map[string]string{"sub/top.mro": "@include \"../sub/top.mro\"\n" + stageIn("S")}, "include-graph")
+		addMulti("top.mro", map[string]string{"top.mro": "@include \"a/../top.mro\"\n" + stageIn("S"), "a/x.mro": ""}, "include-graph")
+		{
+			files := map[string]string{}
+			for k := 0; k < 60; k++ {
+				inc := ""
+				if k < 59 {
+					inc = fmt.Sprintf("@include \"c%d.mro\"\n\n", k+1)
+				}
+				files[fmt.Sprintf("c%d.mro", k)] = inc + stageIn(fmt.Sprintf("C%d", k))
+			}
+			addMulti("c0.mro", files, "include-graph")
+			files2 := map[string]string{}
+			for k, v := range files {
+				files2[k] = v
+			}
+			files2["c59.mro"] = "@include \"c30.mro\"\n\n" + stageIn("C59")
+			addMulti("c0.mro", files2, "include-graph")
+		}
+		for i := 0; i < c.Pick(150, 4000); i++ {
+			mc := pgen.DefaultConfig()
+			mc.MultiFile = true
+			files := pgen.Generate(c.Seed*613+int64(i), mc).Print()
+			names := pgen.SortedKeys(files)
+			victim := names[rng.Intn(len(names))]
+			files[victim] = mutateSource(rng, files[victim])
+			if rng.Intn(4) == 0 {
+				// an include pointing back at the including file
+				files[victim] = "@include \"main.mro\"\n" + files[victim]
+			}
+			addMulti("main.mro", files, "multi-file-mutant")
+		}
+		// wildcard bindings in every position
+		for _, prog := range []string{
+			stageIn("FOO") + "\ncall FOO(\n    * = self,\n)\n",
+			stageIn("FOO") + "\npipeline P(\n    in  int x,\n    out int y,\n)\n{\n    call FOO(\n        * = self,\n    )\n\n    return (\n        * = FOO,\n    )\n}\n\ncall P(\n    * = self,\n)\n",
+			stageIn("FOO") + "\npipeline P(\n    out int y,\n)\n{\n    call FOO(\n        * = self,\n    )\n\n    return (\n        y = FOO.y,\n    )\n}\n",
+			stageIn("FOO") + "\npipeline P(\n    in  int x,\n    out int y,\n)\n{\n    call FOO(\n        * = NOPE,\n    )\n\n    return (\n        * = self,\n    )\n}\n",
+			stageIn("FOO") + "\npipeline P(\n    in  int x,\n    out int y,\n)\n{\n    map call FOO(\n        * = self,\n    )\n\n    return (\n        y = FOO,\n    )\n}\n",
+		} {
+			add('s', prog, "wildcard")
+			toks := tokenize(prog)
+			for k := 0; k < 40; k++ {
+				cp := append([]string{}, toks...)
+				j := rng.Intn(len(cp))
+				cp[j] = hostileTokens[rng.Intn(len(hostileTokens))]
+				add('s', strings.Join(cp, ""), "wildcard")
+			}
 		}
 		// shapes that crashed call graph resolution before (kept as fixed inputs)
 		for _, prog := range c08CallGraphShapes {
